@@ -334,6 +334,29 @@ Definition hop_slow (cfg : http_timeouts) (handler_ns : Z) (t : transport) (a : 
   end.
 
 (* ------------------------------------------------------------------------------------------
+   The receiver's compression_algorithms list (config/confighttp: ServerConfig.CompressionAlgorithms,
+   compression.go httpContentDecompressor).  Names as numbers: 0 "" (no Content-Encoding), 1 gzip, 2 zstd,
+   3 zlib, 4 snappy, 5 deflate, 6 lz4.  The decompressor enables exactly the listed names; "deflate" is served
+   by the zlib decoder whether or not "zlib" itself is listed, and wherever it stands in the list.  A request
+   whose Content-Encoding is not enabled is refused with 400 before the handler (EncUnsupported above).
+   The table is dumped from the current code on every run (Generated/C15DecodersGraph.v; obligation
+   decoders_model_matches_code) and exercised by the kind-13 hops.
+   ------------------------------------------------------------------------------------------ *)
+Definition server_accepts (algs : list Z) (name : Z) : bool :=
+  (0 <=? name) && (name <=? 6) && existsb (Z.eqb name) algs.
+
+(* a hop through an OTLP/HTTP exporter that compresses with [comp] to a receiver configured with [algs] *)
+Definition hop_cfg (algs : list Z) (comp : Z) (t : transport) (a : auth) (items : N) (o : outcome) : hop_result :=
+  match t with
+  | Grpc => hop t a items o
+  | _ =>
+      if server_accepts algs comp then hop t a items o
+      else
+        let '(called, r) := recv_http (mkReq a EncUnsupported true (ct_of t) (Some items)) o in
+        mkHop called (http_export (rs_status r) (ra_of r) true) (http_export_err_code (rs_status r))
+  end.
+
+(* ------------------------------------------------------------------------------------------
    A history: any finite sequence of sends (any mix of transports, authenticator states, item counts and
    consumer outcomes) through the same receiver.  The receiver keeps no state between requests: the i-th
    send is the hop of its own parameters; the sink receives, in order, the indices of the sends that reach
